@@ -916,7 +916,14 @@ def rule_walk(ctx, prop):
                               g.loc(), cfg)
         g = prog.fn("stylua", "is_explicitly_provided::{closure#0}")
         g0 = prog.fn("stylua", "is_explicitly_provided")
-        if rep.anchor(g is not None and g0 is not None, "is_explicitly_provided", cfg):
+        if g0 is not None and g is None:
+            rep.inst("stylua::is_explicitly_provided = opt.files.any(== path)", None, cfg, ok=False)
+            rep.violation("stylua::is_explicitly_provided shape",
+                          "is_explicitly_provided no longer compares the walked path with the entries of opt.files "
+                          "(`opt.files.iter().any(|p| path == *p)`): whether a path counts as explicitly provided now depends on "
+                          "something else (walker depth, argument order), so an explicit file inside a directory argument is "
+                          "filtered like a walked file", g0.loc(), cfg)
+        elif rep.anchor(g is not None and g0 is not None, "is_explicitly_provided", cfg):
             anyc = [t for b, t in g0.calls() if callee(t).endswith("Iterator>::any")]
             files = False
             for bb, si_, s in g0.stmts():
